@@ -6,7 +6,10 @@
 (* File 0 (Ghost) is a path with nothing behind it.  The content of a file *)
 (* is an abstract journal [incl, txs, decl] whose members refer to the     *)
 (* catalogues below (the catalogues are printed with every behaviour so    *)
-(* that the replay renders exactly these journals).                        *)
+(* that the replay renders exactly these journals).  A file may be ABSENT  *)
+(* (it does not exist yet; the first update of it creates it), and an      *)
+(* include list may hold Star, the pattern `[ab].journal`: files 2 and 3   *)
+(* as far as they exist NOW (never the including file itself).             *)
 (*                                                                         *)
 (* Contract: View(c) is a FUNCTION of the current contents: the aggregate  *)
 (* over the files reachable from the root.  For payee templates the view   *)
@@ -18,15 +21,23 @@
 (* payee-template map maintained by overwrite-on-add and, on removal,      *)
 (* either delete-by-key (TemplateRepair = FALSE, the pinned code) or       *)
 (* delete-and-restore-from-remaining-files (TRUE, the repaired code).      *)
+(* `gl` is what the members' patterns expanded to when they were indexed:  *)
+(* an update for a path is taken only if the path is known through an      *)
+(* include of a member -- through the frozen expansion (GlobRepair =        *)
+(* FALSE, the code before the repair of hunt/D/4: a file created later is  *)
+(* never adopted, MembersOK fails) or through the pattern itself (TRUE).   *)
 (***************************************************************************)
 EXTENDS Naturals, Sequences, FiniteSets, TLC, Json, SequencesExt, FiniteSetsExt
 
-CONSTANTS N, MaxOps, InclMenu, TxsMenu, DeclMenu, TemplateRepair,
+CONSTANTS N, MaxOps, InclMenu, TxsMenu, DeclMenu, TemplateRepair, GlobRepair,
+          Absent,   \* TRUE: files other than the root may be absent initially
           InitAll   \* TRUE: every workspace over the pool is an initial state; FALSE: a few hand-picked shapes
 
 Files == 1..N
 Root  == 1
 Ghost == 0
+Star  == N + 1
+GlobSet == {2, 3} \cap Files
 
 (* ---- catalogues --------------------------------------------------------- *)
 Tx == <<
@@ -61,7 +72,7 @@ TagPairs    == UNION { { Tx[t].tags[i] : i \in 1..Len(Tx[t].tags) } : t \in TxId
 TagNames    == { p[1] : p \in TagPairs }
 Dates       == { Tx[t].date : t \in TxIds }
 
-Content == [incl : SUBSET (0..N), txs : Seq(TxIds), decl : SUBSET DeclIds]
+Content == [incl : SUBSET (0..N + 1), txs : Seq(TxIds), decl : SUBSET DeclIds, absent : BOOLEAN]
 
 (* ---- generic sums -------------------------------------------------------- *)
 SumSeq(s, F(_)) == FoldSeq(LAMBDA x, acc : F(x) + acc, 0, s)
@@ -69,8 +80,10 @@ SumOver(S, F(_)) == FoldSet(LAMBDA x, acc : F(x) + acc, 0, S)
 B(b) == IF b THEN 1 ELSE 0
 
 (* ---- contract: the view is a function of the contents ------------------- *)
+GlobExp(c, f) == IF Star \in c[f].incl THEN { g \in GlobSet \ {f} : ~c[g].absent } ELSE {}
+Targets(c, f) == { g \in c[f].incl \ {Ghost, Star} : ~c[g].absent } \cup GlobExp(c, f)
 RECURSIVE Reach(_, _)
-Reach(c, S) == LET S2 == S \cup (UNION { c[f].incl : f \in S } \ {Ghost})
+Reach(c, S) == LET S2 == S \cup UNION { Targets(c, f) : f \in S }
                IN IF S2 = S THEN S ELSE Reach(c, S2)
 Members(c) == Reach(c, {Root})
 
@@ -106,30 +119,36 @@ View(c) ==
 VARIABLES c,      \* contents (also what is on disk)
           mem,    \* mechanism: files the incremental workspace holds an index for
           tpl,    \* mechanism: payee -> transaction id whose postings are the stored template (0 = none)
+          gl,     \* mechanism: file -> what its pattern expanded to when the file was indexed
           h       \* history printed for replay
 
-vars == <<c, mem, tpl, h>>
+vars == <<c, mem, tpl, gl, h>>
 
-Pool == { [incl |-> i, txs |-> t, decl |-> d] : i \in InclMenu, t \in TxsMenu, d \in DeclMenu }
+Pool == { [incl |-> i, txs |-> t, decl |-> d, absent |-> FALSE] : i \in InclMenu, t \in TxsMenu, d \in DeclMenu }
+NoFile == [incl |-> {}, txs |-> <<>>, decl |-> {}, absent |-> TRUE]
 
 PayeesOf(cc, f) == { Tx[cc[f].txs[i]].payee : i \in 1..Len(cc[f].txs) }
 
 (* rebuild of the template map: any order of adding the member files *)
 RebuildTpl(cc) == [p \in Payees |-> IF Offers(cc, p) = {} THEN 0 ELSE CHOOSE t \in Offers(cc, p) : TRUE]
 
-E0 == [incl |-> {}, txs |-> <<>>, decl |-> {}]
+E0 == [incl |-> {}, txs |-> <<>>, decl |-> {}, absent |-> FALSE]
 Shapes == { [f \in Files |-> IF f = Root THEN [E0 EXCEPT !.incl = Files \ {Root}] ELSE [E0 EXCEPT !.txs = <<1>>]],
             [f \in Files |-> IF f < N THEN [E0 EXCEPT !.incl = {f + 1}, !.txs = <<2>>] ELSE [E0 EXCEPT !.txs = <<1>>]],
             [f \in Files |-> E0] }
 
-Init == /\ IF InitAll THEN c \in [Files -> Pool] ELSE c \in Shapes
+Init == /\ IF InitAll THEN c \in [Files -> Pool \cup (IF Absent THEN {NoFile} ELSE {})] ELSE c \in Shapes
+        /\ ~c[Root].absent
         /\ mem = Members(c)
         /\ tpl = RebuildTpl(c)
+        /\ gl = [f \in Files |-> IF f \in Members(c) THEN GlobExp(c, f) ELSE {}]
         /\ h = << [op |-> "init", contents |-> c, view |-> View(c)] >>
 
 (* The code ignores an update for a path that is neither the root, nor indexed, nor the target
    of an include of an indexed file. *)
-IsWorkspaceFile(f) == f = Root \/ f \in mem \/ \E g \in mem : f \in c[g].incl
+IsWorkspaceFile(f) == \/ f = Root \/ f \in mem
+                      \/ \E g \in mem : f \in c[g].incl \/ f \in gl[g]
+                      \/ GlobRepair /\ \E g \in mem : Star \in c[g].incl /\ f \in GlobSet \ {g}
 
 RemoveTpl(t0, cOld, f, memAfter, cNew) ==
     [p \in Payees |->
@@ -163,7 +182,8 @@ Update(f, p) ==
                    t3   == AddAll(t2, c2, new)                                  \* addMissingReachable
                IN /\ mem' = m2
                   /\ tpl' = t3
-          ELSE UNCHANGED <<mem, tpl>>
+                  /\ gl' = [g \in Files |-> IF g \in m2 THEN GlobExp(c2, g) ELSE {}]
+          ELSE UNCHANGED <<mem, tpl, gl>>
        /\ h' = Append(h, [op |-> "update", file |-> f, content |-> p, view |-> View(c2)])
 
 Next == \E f \in Files, p \in Pool : Update(f, p)
